@@ -23,6 +23,8 @@ package varutil
 //@   loop 1 step isEscaped ==> (ch == '\\' && !prev(isEscaped))
 // -- a newline is never data of an unquoted argument: an escaped newline continues the line and changes no argument
 //@   loop 1 step ch == '\n' ==> len(args) == prev(len(args)) && forall(k, 0 <= k && k < len(args) ==> args[k] == prev(args[k]))
+// -- and it does not end the word it stands in: the continuation glues what follows to what came before
+//@   loop 1 step ch == '\n' ==> isSeparated == prev(isSeparated)
 // -- every byte appended to the current argument is exactly the byte read
 //@   at_store current requires $new == cat($old, sbyte(ch))
 // -- quoted run
